@@ -80,10 +80,10 @@ def cfg_text(name, depth, dev=None, export=False):
 
 PROFILES = {
     "C03": [("decode", 1200, 6000), ("general", 150, 1500), ("rebase", 150, 1000)],
-    "C06": [("general", 400, 3000)],
+    "C06": [("general", 400, 3000), ("labels", 400, 3000)],
     "C07": [("straight", 300, 2500), ("general", 100, 800)],
     "C15": [("general", 400, 3000)],
-    "C16": [("general", 400, 3000)],
+    "C16": [("general", 400, 3000), ("labels", 300, 2000)],
     "C19": [("general", 400, 3000), ("rebase", 250, 1500)],
 }
 
